@@ -308,6 +308,21 @@ impl<'tcx> Cx<'tcx> {
                     }
                 }
             }
+            // references to statics: `&STATIC` is a pointer constant into a static allocation
+            if matches!(t.kind(), ty::Ref(..) | ty::RawPtr(..)) {
+                if let Ok(val) = c.const_.eval(tcx, env, rustc_span::DUMMY_SP) {
+                    if let Some(sc) = val.try_to_scalar() {
+                        if let Some(ptr) = sc.to_pointer(&tcx).discard_err() {
+                            let (prov, _off) = ptr.into_raw_parts();
+                            if let Some(p) = prov {
+                                if let mir::interpret::GlobalAlloc::Static(sdid) = tcx.global_alloc(p.alloc_id()) {
+                                    kv.push(("static", J::Str(def_id_str(tcx, sdid))));
+                                }
+                            }
+                        }
+                    }
+                }
+            }
             if let mir::Const::Unevaluated(uv, _) = c.const_ {
                 kv.push(("uneval", J::Str(def_id_str(tcx, uv.def))));
                 if let Some(p) = uv.promoted {
